@@ -50,7 +50,7 @@ CHECKS = {
         "rule": "rapid: object (cert 70% / CRL 20% / OCSP 10%: corpus, 0-4 DER-tree edits, openers re-date/re-scope, built CRLs/OCSP) x registry "
                 "(nil, global, Filter(generated), Filter of Filter) x configuration (none, empty, example, unrelated, well-typed, ill-typed); plus the whole "
                 "corpus under the default registry (enumerated); " + HOME_SWEEP + " (K=2 quick / 3 thorough; inner-node edits include an extra trailing element of each class) through Lint*Ex; cold start (race-detector build, one fresh process per shard): the first use of the global registry, and the first use after two run-time registrations, is eight goroutines linting at once - every result set complete and equal to a later sequential one. Oracle: result-set invariants. Non-trivial = parseable, >=1 result above pass, and bytes edited "
-                "or registry filtered or configuration given; distinct by hash(DER, filters, config).",
+                "or registry filtered or configuration given; distinct by hash(DER, filters, config). After additions (enumerated): eleven lints of every kind registered one at a time through the public API, the registry put to every kind of use (lint runs of all three kinds, listings, lookups, JSON listing, example configuration) and offered registrations it refuses between two of them; after each a certificate, a CRL and an OCSP response linted through the global registry (explicit and default) must carry a result for every lint of the kind, late ones included. The lints expected in a result set are those the per-kind list shows plus those Names() x per-kind ByName shows.",
         "assumptions": COMMON_ASSUME + ["'hang' = a single Lint*Ex call exceeding 45 s (about 30 000 times its normal duration)",
                                          "mock leg: 90 instrumented lints (15 sources x 3 kinds x plain/configurable) registered through the public Register* API in a test binary of their own; "
                                          "generated scripts make all 16 flag combinations and all 7 statuses occur"],
@@ -79,14 +79,14 @@ CHECKS = {
                 "framework results are compared with the deprecated Registry.ByName(...).Execute path too. enumerated single-feature scope matrix ({no EKU, each of 8 EKUs} x {no policy, each of 18 scope OIDs, anyPolicy, unrelated} x 9 e-mail-SAN variants (absent, rfc822Name, SmtpUTF8Mailbox well-formed / Latin-1 / OCTET STRING / trailing element / empty wrapper / empty string, empty rfc822Name) on the 3 "
                 "corpus certificates that are home to most TLS/SMIME/CS lints; the same scope variants are objects of the mock leg, where run-time lints of every source meet them) + a soak history + corpus + rapid objects with openers, filters and configurations. Oracle: framework result == "
                 "reference lifecycle (scope model, fresh instance, MaybeConfigure, CheckApplies, integer window, Execute) for every lint, status and details. "
-                "Non-trivial = object on which >=1 lint's lifecycle stage differs from the untransformed base; distinct by hash(DER).",
+                "Non-trivial = object on which >=1 lint's lifecycle stage differs from the untransformed base; distinct by hash(DER). Concurrent scope (race-detector build): certificates in / out of scope of each document (key purposes, policy identifiers, a SAN mailbox), short ones next to ones with hundreds to thousands of filler policy identifiers, linted by eight goroutines at once - every digest equals the one computed alone.",
         "assumptions": COMMON_ASSUME + ["mock-lint call logs (constructor/Configure/CheckApplies/Execute order) are covered by the mockreg leg"],
     },
     "C06": {
         "legs": legs_simple("props", "^TestC06$", 14, 16),
         "rule": "every lint run contributes a (lint, status) tally: corpus, boundary objects of every dated lint, " + HOME_SWEEP + " (K=2), rapid edits directed at the home objects of each lint, generated objects with openers, the calendar CRL enumeration x the CRL lint's option, rapid objects under well-typed configurations; S/MIME subjects whose mailboxes reappear in the SAN verbatim, in their other IDNA spelling, as SmtpUTF8Mailbox (well-formed or not) or not at all. "
                 "Oracle: status in {pass, NA, NE, fatal} or the one severity the name prefix allows; every registered name has exactly one prefix (enumerated). "
-                "Non-trivial = distinct (lint, status above pass) pair observed.",
+                "Non-trivial = distinct (lint, status above pass) pair observed. Sections that cannot be applied (enumerated: scalar, string, array, array of tables, date, wrong field type, table for a scalar x every configurable lint x objects it runs on; and one rapid case in five of the configured leg): what the framework answers in the lint's place must also fit the lint's prefix.",
         "assumptions": COMMON_ASSUME + ["only executed return paths are observed"],
     },
     "C12": {
@@ -104,7 +104,7 @@ CHECKS = {
         "rule": "enumerated: every lint alone (Filter IncludeNames=[l]) on K of its home objects (2 quick / all thorough); rapid: generated objects x generated valid FilterOptions "
                 "(singletons, subsets, sources, regexps, chains of two filters), on fresh parses and on one shared parsed object in both orders; inherited configurations (well- and ill-typed), and an earlier equal Filter whose result was reconfigured; lint-order oracle: corpus certificates, structured certificates and the home-sweep mutants (half of them in quick, all in thorough) are linted in the registry's order and in reverse order on fresh parses - every status must agree. Oracle: selected lints' status and "
                 "details equal the full run's, keys == selected lints of the kind, filtered flags imply full flags. Non-trivial = proper non-empty selection with >=1 finding among "
-                "the selected lints; distinct by hash(DER, filters).",
+                "the selected lints; distinct by hash(DER, filters). Every sweep mutant is linted once in the registry's order; the reverse-order run follows whenever that run left the parsed object different from a freshly parsed twin, and for one mutant in four besides (all in thorough). The corpus with lengthened lists (slices with spare capacity) goes through the order oracle too.",
         "assumptions": COMMON_ASSUME,
     },
     "C08": {
@@ -132,7 +132,7 @@ CHECKS = {
         "rule": "enumerated: every Names() element as sole include and sole exclude (padded), every Sources() element through LintSource.FromString, SourceList.FromString (alone, padded, "
                 "in lists), JSON round trip, Include/ExcludeSources and the real CLI (-includeSources/-excludeSources -list-lints-source; -includeNames/-excludeNames for every 9th name "
                 "in quick, all in thorough), every registered profile; rapid: unknown tokens (case-changed, truncated, suffixed, random) must be rejected by Filter, SourceList.FromString, "
-                "JSON decoding and the CLI; every known source (constants harvested from source.go) with stray blanks / separators around it, and generated padded tokens: whatever FromString / SourceList.FromString / JSON decoding accepts must be one of the known sources. After run-time registrations every listed name is accepted alone and in lists of 2-40 names, and every list accepted before an addition is submitted again after it together with the new names; CLI selector combinations (two bad values, bad + good, names glued without a separator); profiles registered at run time come back from GetProfile as registered, select exactly their lints, and are rejected when they name an unknown lint. Non-trivial = one listed name/source/profile case or one unknown token; distinct by (what, token, padding).",
+                "JSON decoding and the CLI; every known source (constants harvested from source.go) with stray blanks / separators around it, and generated padded tokens: whatever FromString / SourceList.FromString / JSON decoding accepts must be one of the known sources. After run-time registrations every listed name is accepted alone and in lists of 2-40 names, and every list accepted before an addition is submitted again after it together with the new names; CLI selector combinations (two bad values, bad + good, names glued without a separator); profiles registered at run time come back from GetProfile as registered, select exactly their lints, and are rejected when they name an unknown lint. Non-trivial = one listed name/source/profile case or one unknown token; distinct by (what, token, padding). Every listed name is also offered next to source options (its own source excluded / another source included, as include and as exclude name): accepted, and the selection follows the documented rule.",
         "assumptions": ["the CLI binary is built from the working tree by the driver", "no profile is registered today, so the profile leg is vacuous until one is"],
     },
     "C14": {
@@ -144,7 +144,7 @@ CHECKS = {
                 "quotes, <>&, NUL so details carry them), synthetic results with arbitrary details bytes x each status, arbitrary label strings, arbitrary JSON tokens in the place of a status (numbers, null, booleans, arrays, objects, escaped strings: decoding fails cleanly - never a panic - or yields a label's status), WriteJSON of generated filtered "
                 "registries; result sets whose details carry %, quotes, <>&, control or invalid bytes are also printed by the real CLI (default / -pretty) and decoded. Oracle: Unmarshal(Marshal(x)) reproduces keys, status, details (invalid bytes -> U+FFFD), flags, version, timestamp; labels distinct/stable; unknown labels "
                 "rejected; listing lines decode strictly to name/description/citation/known source. Non-trivial = result set with >=1 non-empty details (distinct by details content), "
-                "a synthetic result, a label or a listing.",
+                "a synthetic result, a label or a listing. After each of six late registrations (every kind; registry in full use between them) the listing is judged again, for the whole registry and for views; encoders under concurrency (race-detector build): result sets incl. details with invalid UTF-8 / quotes / 15 kB, single results, statuses (also through MarshalJSON directly), sources and the listing encoded by eight goroutines - byte-identical to the encoding made alone, and decodable.",
         "assumptions": COMMON_ASSUME,
     },
     "C09": {
@@ -163,7 +163,7 @@ CHECKS = {
                 "(a quarter of the base/threshold/exponent grid per seed), genuinely self-signed roots built from 10 committed keys of 1023..4096 bits under the base's validity and eight periods on every side of the 2011 / 2014 dates; rapid: moduli near thresholds, "
                 "uniform 2..4200 bits, multiples of 8 +-1, even, primes around 752 x prime, products of two primes; exponents incl. 2^63-1; Fermat: products of primes whose distance is "
                 "aimed at 0..4000 rounds (also 1536- / 2048-bit primes: moduli above 2048 bits), moduli made of all-ones / near-all-ones / zero machine words, applicability independent of the key value, Rounds configured at need-1..need+2 - a budget of them also through the real CLI with -config and generated selection flags, plus the enumerated CLI -config matrix for the Fermat lint. Keys are written into the SPKI of home certificates of the 14 lints. Oracle: math/big predicates, applied "
-                "where the reference lifecycle says the lint executed. Non-trivial = (lint, bit length within 1 of a threshold) or (lint, key with the finding) or a Fermat (N, Rounds) case.",
+                "where the reference lifecycle says the lint executed. Non-trivial = (lint, bit length within 1 of a threshold) or (lint, key with the finding) or a Fermat (N, Rounds) case. Aligned differences (enumerated): 256- and 512-bit prime pairs whose half-difference is m*2^s, m*2^s - 1 or m*2^s + 1 for s in {31,32,33,63,64,65,96,128} (low machine words all zero / all ones / one bit), default rounds and Rounds = 1. Concurrent leg (race-detector build): chosen keys (small factors either side of 752, short modulus, odd exponents) judged by eight goroutines - every digest equals the one computed alone.",
         "assumptions": COMMON_ASSUME + ["Fermat Rounds <= 2000", "perfect squares are excluded from the Fermat must-report direction"],
     },
     "C17": {
@@ -184,7 +184,7 @@ CHECKS = {
         "rule": "the TLD table is read as data with go/parser; enumerated in both tiers: well-formedness of every entry, and HasValidTLD for every entry x {delegation, removal} x "
                 "{-1s,0,+1s} x 3 spellings x 3 zones; rapid: labels from table keys (any case), near misses, fixed internal names, random strings x domain shapes x instants (near a "
                 "boundary or uniform 1980-2040); certificates: home objects of e_dnsname_not_valid_tld with generated SAN/CN and notBefore, and (enumerated) 27 common names that are or only resemble IP literals (zones, brackets, ports, leading zeros, short forms); 16 extreme instants per table entry (year 1 ... 9999); the Unicode spellings of the table's xn-- keys (not in the table); bit-5 look-alikes of table keys (@ [ \\ ] ^ _ ` for letters); CN = case variant of a SAN entry. Oracle: integer model of the statement "
-                "(ASCII case-insensitive). Non-trivial = (entry, boundary, side, spelling), a missing label, or a generated certificate.",
+                "(ASCII case-insensitive). Non-trivial = (entry, boundary, side, spelling), a missing label, or a generated certificate. Cold leg (race-detector build, fresh processes): the first calls of HasValidTLD / IsInTLDMap and the other pure helpers are concurrent, then repeated alone - answers agree.",
         "assumptions": ["labels containing a character that some case mapping relates to an ASCII character (KELVIN SIGN, LONG S, dotted capital I) are not judged; every other non-ASCII label is 'not in the table'",
                         "generator leg: registry data are what the two ICANN feeds publish - lower-case LDH gTLD names in the JSON, upper-case names one per LF-terminated line in the TLD list, removal not earlier than delegation, no entry called onion; the HTTP layer is replaced by a fake transport"],
     },
@@ -196,7 +196,7 @@ CHECKS = {
                 "first, middle and last address of every block in 4-byte and IPv4-mapped form (so every super-net and sub-net), 26 public anchors; unmasked network bases (host bits set) against every block; rapid: addresses near blocks, "
                 "perturbed anchors, uniform v4/v6 x any prefix; certificates with generated iPAddress SANs, IP common names and permitted (and, next to them, excluded) IP name constraints on home objects. "
                 "Oracle: block member => reserved; anchor => public; forms agree; /32 or /128 network == address test; contains a reserved witness => intersects; super-net "
-                "monotonicity; lints == function results. Non-trivial = block edge address, super-net of a block, address inside a block, or a generated certificate.",
+                "monotonicity; lints == function results. Non-trivial = block edge address, super-net of a block, address inside a block, or a generated certificate. Masks that are not prefixes (a name constraint carries address and mask as two byte strings): enumerated - every public anchor x every model block of its family with the mask that keeps exactly the bits on which they agree (host part closed / open / every other bit open); rapid - prefix masks with 1-4 holes, whole-octet masks, random masks; oracle: membership is x AND mask == address AND mask, a member inside a model block (constructed bit by bit) => intersects, 4-byte == IPv4-mapped spelling, clearing one more mask bit keeps intersecting; certificate level: permitted subtrees with holes in the mask. Cold leg (race-detector build, fresh processes): first calls of the address / network functions concurrent, then alone.",
         "assumptions": ["the model blocks are the ones named in the statement; the implementation may reserve more"],
     },
     "C20": {
@@ -217,7 +217,7 @@ CHECKS = {
                 "and up to 4 registries, re-using parsed objects, against a memo of the first verdict; (3) read-only: reflect walk over every exported field of the linted object vs an "
                 "unlinted twin; (4) a bundle of corpus + generated objects linted in a fresh process (oneshot, CGO off) - digests must equal the in-process ones under rapid-generated "
                 "environments (TZ, LANG, HOME, TMPDIR, unrelated variables, cwd, empty env) - and under strace -f: no file, network, process or descriptor I/O system call may start "
-                "inside the marked lint window. Non-trivial = object with >=1 finding carrying details (distinct by case hash), a history of >=3 steps over >=2 registries, or an environment.",
+                "inside the marked lint window. Non-trivial = object with >=1 finding carrying details (distinct by case hash), a history of >=3 steps over >=2 registries, or an environment. Predecessor sweep (enumerated): for every lint, every corpus object on which it reports (and some on which it passes; up to 5 / 12) is linted immediately before every object of the kind (corpus + synthetic rich CRLs / OCSP responses) - the victim's status and details must be what they are after any other predecessor (~1.8 M pairs). Corpus with lengthened lists (SAN arms, policies, key purposes, organizational units padded to 3, 5, 6, 7 ... entries with capital letters, so parser-built slices have spare capacity): read-only and repetition.",
         "assumptions": COMMON_ASSUME + ["reads/writes on the Go runtime's own eventfd/pipe wake-up descriptors are not I/O of the linted code",
                                          "os.Getenv is not a system call: it is attacked through environment perturbation only",
                                          "I/O freedom is observed on executed paths only"],
@@ -232,7 +232,7 @@ CHECKS = {
                 "WriteJSON, GetConfiguration, DefaultConfiguration}; shared registries = global + 1-3 generated filtered ones; 6-24 objects per program (corpus walked round-robin so every "
                 "lint body the corpus reaches runs concurrently, generated certificates, CRLs, OCSP); start barrier, generated Gosched points; each program executed 3 times; shards run "
                 "under GOMAXPROCS 1/2/4/16. Monitors: Go race detector (any report), panics, 180 s deadlock watchdog (120 s in the hammer); oracle: every concurrent lint digest equals the memoised "
-                "sequential digest. Non-trivial = program with >=2 mostly-linting goroutines and >=1 other goroutine; distinct by operation lists.",
+                "sequential digest. Non-trivial = program with >=2 mostly-linting goroutines and >=1 other goroutine; distinct by operation lists. Cold start also covers reads: while eight goroutines lint through the untouched global registry three more make every read call (JSON listing, names, sources, per-kind lists, lookups by source and name, a filter, example configuration) for the first time, each shard starting at another call; answers must equal the same calls made alone. Further legs (fresh processes, race detector): ~500 calls of pure helper functions (reserved addresses and networks, TLD table, FQDN / IDNA / country / onion helpers, trial division) made first concurrently then alone, and hammered; JSON encoders (result sets, results, statuses, sources, listing) from eight goroutines against the bytes produced alone; key-quality verdicts on chosen RSA keys from eight goroutines.",
         "assumptions": ["SetConfiguration / Register* concurrent with linting are outside the stated guarantee and not generated",
                         "schedules are sampled; the race detector reports an unsynchronised shared access whenever both accesses execute in one run"],
     },
@@ -243,7 +243,7 @@ CHECKS = {
                 "base64 plain / wrapped / trailing newline) x delivery (neutral file + -format, .pem/.der suffix overriding, stdin, '-') x generated selection flags and config file x output "
                 "(default, -pretty, -summary, -longSummary); the enumerated CLI -config matrix of C11; every corpus certificate x {PEM, DER, base64}; a 60 KiB certificate (2600 dNSNames) in every encoding through a file and stdin; 200 files in one invocation under `ulimit -n 48`; bad cases: undecodable bytes, truncated DER, bad base64, wrong PEM type, mismatching suffix, unknown names/sources/regexp/profile/"
                 "format/config path. Oracle: exit status, one result object (or table) per decodable leading input, equal to the in-process library result for the same selection; summary "
-                "counts equal result counts per level. Non-trivial = invocation with a selection flag or a non-PEM first input; distinct by whole invocation.",
+                "counts equal result counts per level. Non-trivial = invocation with a selection flag or a non-PEM first input; distinct by whole invocation. The -config matrix also carries a section that cannot be applied (the lint's result is fatal, alone above pass under a narrow selection) and asks for -summary / -longSummary: table counts equal the library's counts.",
         "assumptions": ["a .pem/.der suffix overrides -format; neutral files are named *.bin", "CRLs are only accepted in PEM armor"],
     },
 }
